@@ -1,9 +1,304 @@
-import SynthVerif.Model.Adsr
-import SynthVerif.Model.Lfo
-import SynthVerif.Model.Quantizer
-import SynthVerif.Model.Midi
-import SynthVerif.Model.Glide
-import SynthVerif.Model.Ribbon
+import SynthVerif.Props.ScanSorted
+import SynthVerif.Props.C07
+import SynthVerif.F32.Rnd2
+/-!
+# C08 — Quantizer picks the nearest allowed note in every octave
+
+On the quantizer's own integer grid (µV; note `k` sits at `(k mod 12)·83333 + (k/12)·10^6`):
+* `Pick L v r` (in `ScanSorted`): `r` is a candidate; if some candidate lies within one half-step of `v`, `r` is
+  the lowest such (an allowed note at or less than one semitone below `v` always wins); otherwise `r` is a candidate
+  of minimal distance.
+* `search_is_pick`: for every scale and every µV input ≤ 10 V the search returns `Pick` over the three searched
+  octaves; `local_to_global`: …and that is `Pick` over *all* allowed notes 0..131, because every octave contains an
+  allowed note (the rule is the same in every octave).
+* `pick_monotone`: `Pick` is monotone in the input: the note never decreases as `v` rises.
+* `microvolts_close`: the µV value the search runs on is within 1.5 µV of `10^6·clamp(v, 0, 10)`.
+-/
 namespace C08
-theorem placeholder_to_be_replaced : True := trivial
+open F32 Quantizer
+
+/-! ### the candidate list is ascending -/
+
+theorem octaveCands_sorted (allowed oct : Nat) : List.Pairwise (· < ·) (octaveCands allowed oct) := by
+  unfold octaveCands
+  apply List.Pairwise.filterMap _ _ List.pairwise_lt_range
+  intro a a' haa b hb b' hb'
+  obtain ⟨h1, _, _⟩ := consts
+  split at hb <;> split at hb' <;> simp at hb hb'
+  subst hb hb'
+  rw [h1]; omega
+
+theorem octaveCands_range {allowed oct c : Nat} (h : c ∈ octaveCands allowed oct) :
+    oct * Gen.oneOctaveUv ≤ c ∧ c ≤ oct * Gen.oneOctaveUv + 11 * Gen.halfStepUv := by
+  obtain ⟨n, hn, _, rfl⟩ := mem_octaveCands.mp h
+  obtain ⟨h1, h2, _⟩ := consts
+  rw [h1, h2]; omega
+
+theorem octavesToSearch_sorted (o : Nat) : List.Pairwise (· < ·) (octavesToSearch o) := by
+  unfold octavesToSearch
+  by_cases h1 : 1 ≤ o <;> by_cases h2 : o < Gen.maxOctave <;> simp [h1, h2] <;> omega
+
+theorem allCands_sorted (allowed vin : Nat) : List.Pairwise (· < ·) (allCands allowed vin) := by
+  unfold allCands
+  rw [List.pairwise_flatMap]
+  refine ⟨fun a _ => octaveCands_sorted allowed a, ?_⟩
+  apply List.Pairwise.imp _ (octavesToSearch_sorted _)
+  intro a b hab x hx y hy
+  have r1 := octaveCands_range hx
+  have r2 := octaveCands_range hy
+  obtain ⟨h1, h2, _⟩ := consts
+  rw [h1, h2] at r1 r2
+  have : a + 1 ≤ b := hab
+  nlinarith
+
+/-! ### the search is `Pick` over the searched octaves -/
+
+theorem search_is_pick (allowed vin : Nat) (ha : ∃ n, n < 12 ∧ bit allowed n = true) (hv : vin ≤ 10000000) :
+    Pick (allCands allowed vin) vin ((allCands allowed vin).foldl (scanStep vin) {}).result := by
+  obtain ⟨h1, h2, h3⟩ := consts
+  apply scan_pick vin _ (allCands_sorted allowed vin)
+  · obtain ⟨n, hn, hb⟩ := ha
+    intro hnil
+    have : n * Gen.halfStepUv + (vin / Gen.oneOctaveUv) * Gen.oneOctaveUv ∈ allCands allowed vin := by
+      simp only [allCands, List.mem_flatMap]
+      exact ⟨_, self_mem_octavesToSearch _, mem_octaveCands.mpr ⟨n, hn, hb, rfl⟩⟩
+    rw [hnil] at this; simp at this
+  · intro c hc
+    simp only [allCands, List.mem_flatMap] at hc
+    obtain ⟨oct, hoct, hc⟩ := hc
+    have r := octaveCands_range hc
+    obtain ⟨hle, _⟩ := mem_octavesToSearch hoct
+    have ho : vin / Gen.oneOctaveUv ≤ 10 := by rw [h2]; omega
+    rw [h1, h2] at r
+    unfold delta; split <;> omega
+
+/-- the note number reported for a µV input -/
+theorem findNearestUv_eq (allowed vin : Nat) :
+    findNearestUv allowed vin = (((allCands allowed vin).foldl (scanStep vin) {}).result / Gen.halfStepUv) % 256 := rfl
+
+/-! ### from the three searched octaves to all allowed notes -/
+
+/-- all candidates: every allowed pitch class in every octave 0..10 (notes 0..131) -/
+def globalCands (allowed : Nat) : List Nat := (List.range (Gen.maxOctave + 1)).flatMap (octaveCands allowed)
+
+theorem mem_globalCands {allowed c : Nat} :
+    c ∈ globalCands allowed ↔ ∃ oct n, oct ≤ Gen.maxOctave ∧ n < 12 ∧ bit allowed n = true ∧
+      c = n * Gen.halfStepUv + oct * Gen.oneOctaveUv := by
+  simp only [globalCands, List.mem_flatMap, List.mem_range]
+  constructor
+  · rintro ⟨oct, ho, hc⟩
+    obtain ⟨n, hn, hb, rfl⟩ := mem_octaveCands.mp hc
+    exact ⟨oct, n, by omega, hn, hb, rfl⟩
+  · rintro ⟨oct, n, ho, hn, hb, rfl⟩
+    exact ⟨oct, by omega, mem_octaveCands.mpr ⟨n, hn, hb, rfl⟩⟩
+
+theorem allCands_sub_global {allowed vin c : Nat} (hv : vin ≤ 10000000) (h : c ∈ allCands allowed vin) :
+    c ∈ globalCands allowed := by
+  obtain ⟨h1, h2, h3⟩ := consts
+  simp only [allCands, List.mem_flatMap] at h
+  obtain ⟨oct, hoct, hc⟩ := h
+  obtain ⟨n, hn, hb, rfl⟩ := mem_octaveCands.mp hc
+  obtain ⟨hle, himp⟩ := mem_octavesToSearch hoct
+  refine mem_globalCands.mpr ⟨oct, n, ?_, hn, hb, rfl⟩
+  have ho : vin / Gen.oneOctaveUv ≤ 10 := by rw [h2]; omega
+  rw [h3]
+  by_cases he : oct = vin / Gen.oneOctaveUv + 1
+  · have := himp he; rw [h3] at this; omega
+  · omega
+
+/-- **the rule is the same in every octave**: what the search finds in its three octaves is `Pick` over all
+allowed notes 0..131 -/
+theorem local_to_global (allowed vin r : Nat) (ha : ∃ n, n < 12 ∧ bit allowed n = true) (hv : vin ≤ 10000000)
+    (hp : Pick (allCands allowed vin) vin r) : Pick (globalCands allowed) vin r := by
+  obtain ⟨h1, h2, h3⟩ := consts
+  obtain ⟨hr, hA, hB⟩ := hp
+  set o := vin / Gen.oneOctaveUv with ho
+  have ho10 : o ≤ 10 := by rw [ho, h2]; omega
+  obtain ⟨n0, hn0, hb0⟩ := ha
+  -- an allowed note in the input's own octave: distance below one octave
+  set c0 := n0 * Gen.halfStepUv + o * Gen.oneOctaveUv with hc0
+  have hc0mem : c0 ∈ allCands allowed vin := by
+    simp only [allCands, List.mem_flatMap]
+    exact ⟨_, self_mem_octavesToSearch _, mem_octaveCands.mpr ⟨n0, hn0, hb0, rfl⟩⟩
+  have ho' : o = vin / 1000000 := by rw [ho, h2]
+  have hd0 : delta vin c0 < 1000000 := by
+    rw [hc0, h1, h2]; unfold delta
+    split <;> omega
+  -- a global candidate is either searched or at least one octave away
+  have far : ∀ c' ∈ globalCands allowed, c' ∈ allCands allowed vin ∨ 1000000 ≤ delta vin c' := by
+    intro c' hc'
+    obtain ⟨k, n, hk, hn, hb, rfl⟩ := mem_globalCands.mp hc'
+    rw [h3] at hk
+    by_cases hs : k ∈ octavesToSearch o
+    · left
+      simp only [allCands, List.mem_flatMap]
+      exact ⟨k, hs, mem_octaveCands.mpr ⟨n, hn, hb, rfl⟩⟩
+    · right
+      have hk' : k + 2 ≤ o ∨ o + 2 ≤ k := by
+        simp only [octavesToSearch, h3, List.mem_append, List.mem_singleton, not_or] at hs
+        obtain ⟨⟨hs1, hs2⟩, hs3⟩ := hs
+        by_cases c1 : 1 ≤ o <;> by_cases c2 : o < 10 <;> simp [c1, c2] at hs1 hs3 <;> omega
+      rw [h1, h2]; unfold delta
+      split <;> omega
+  refine ⟨allCands_sub_global hv hr, ?_, ?_⟩
+  · rintro ⟨c, hc, hlt⟩
+    have hcl : c ∈ allCands allowed vin := by
+      rcases far c hc with h | h
+      · exact h
+      · rw [h1] at hlt; omega
+    obtain ⟨hA1, hA2⟩ := hA ⟨c, hcl, hlt⟩
+    refine ⟨hA1, ?_⟩
+    intro c' hc' hlt'
+    rcases far c' hc' with h | h
+    · exact hA2 c' h hlt'
+    · rw [h1]; omega
+  · intro hall c' hc'
+    have hloc := hB (fun c hc => hall c (allCands_sub_global hv hc))
+    rcases far c' hc' with h | h
+    · exact hloc c' h
+    · have := hloc c0 hc0mem
+      omega
+
+/-! ### monotonicity -/
+
+/-- **the note never decreases as the input rises** (on any candidate list; at an exact tie between two candidates
+`Pick` allows either, so the statement is for `v < v'`; for `v = v'` the search is a function) -/
+theorem pick_monotone (L : List Nat) (v v' r r' : Nat) (hv : v < v') (hp : Pick L v r) (hp' : Pick L v' r') :
+    r ≤ r' := by
+  apply Nat.le_of_not_lt
+  intro hlt
+  obtain ⟨hr, hA, hB⟩ := hp
+  obtain ⟨hr', hA', hB'⟩ := hp'
+  by_cases hW : ∃ c ∈ L, delta v c < Gen.halfStepUv
+  · obtain ⟨a1, a2⟩ := hA hW
+    have a3 := a2 r' hr' hlt
+    by_cases hW' : ∃ c ∈ L, delta v' c < Gen.halfStepUv
+    · obtain ⟨b1, _⟩ := hA' hW'
+      unfold delta at a1 a3 b1
+      split at a1 <;> split at a3 <;> split at b1 <;> omega
+    · have hall' : ∀ c ∈ L, Gen.halfStepUv ≤ delta v' c := by
+        intro c hc
+        apply Nat.le_of_not_lt
+        intro h; exact hW' ⟨c, hc, h⟩
+      have b1 := hB' hall' r hr
+      have b2 := hall' r hr
+      unfold delta at a1 a3 b1 b2
+      split at a1 <;> split at a3 <;> split at b2 <;> (try split at b1) <;> (try split at b1) <;> omega
+  · have hall : ∀ c ∈ L, Gen.halfStepUv ≤ delta v c := by
+      intro c hc
+      apply Nat.le_of_not_lt
+      intro h; exact hW ⟨c, hc, h⟩
+    have a1 := hB hall r' hr'
+    have a2 := hall r' hr'
+    by_cases hW' : ∃ c ∈ L, delta v' c < Gen.halfStepUv
+    · obtain ⟨b1, _⟩ := hA' hW'
+      unfold delta at a1 a2 b1
+      split at a2 <;> split at b1 <;> (try split at a1) <;> (try split at a1) <;> omega
+    · have hall' : ∀ c ∈ L, Gen.halfStepUv ≤ delta v' c := by
+        intro c hc
+        apply Nat.le_of_not_lt
+        intro h; exact hW' ⟨c, hc, h⟩
+      have b1 := hB' hall' r hr
+      unfold delta at a1 b1
+      (try split at a1) <;> (try split at a1) <;> (try split at b1) <;> (try split at b1) <;> omega
+
+/-- the µV grid value of every candidate decodes to its note number, and larger candidates are larger notes -/
+theorem note_of_cand_mono {a b : Nat} (h : a ≤ b) (hb : b ≤ 11000000) :
+    (a / Gen.halfStepUv) % 256 ≤ (b / Gen.halfStepUv) % 256 := by
+  obtain ⟨h1, _, _⟩ := consts
+  rw [h1]; omega
+
+/-- **C08 on the integer grid**: for a fixed scale the reported note is non-decreasing in the µV input -/
+theorem findNearestUv_monotone (allowed : Nat) (ha : ∃ n, n < 12 ∧ bit allowed n = true) (v v' : Nat)
+    (hvv : v ≤ v') (hv' : v' ≤ 10000000) : findNearestUv allowed v ≤ findNearestUv allowed v' := by
+  rcases Nat.lt_or_ge v v' with hlt | hge
+  · have p := local_to_global allowed v _ ha (by omega) (search_is_pick allowed v ha (by omega))
+    have p' := local_to_global allowed v' _ ha hv' (search_is_pick allowed v' ha hv')
+    have hm := pick_monotone _ v v' _ _ hlt p p'
+    rw [findNearestUv_eq, findNearestUv_eq]
+    apply note_of_cand_mono hm
+    obtain ⟨k, n, hk, hn, _, he⟩ := mem_globalCands.mp p'.1
+    obtain ⟨h1, h2, h3⟩ := consts
+    rw [he, h1, h2]; rw [h3] at hk; omega
+  · have : v = v' := by omega
+    subst this; exact Nat.le_refl _
+
+/-! ### the float wrapper -/
+
+/-- the µV value of a finite input in [0, 10] V -/
+theorem microvolts_val (q : ℚ) (nz : Bool) (h0 : 0 ≤ q) (h10 : q ≤ 10) :
+    ((toMicrovolts (.fin q nz) : ℕ) : ℤ) = ⌊rnd (q * 1000000)⌋ := by
+  rw [toMicrovolts, C07.octave_f32, mul_fin]
+  have hx : q * 1000000 ≤ 10000000 := by linarith
+  have hx0 : 0 ≤ q * 1000000 := by positivity
+  have hr : rnd (q * 1000000) ≤ 10000000 := by
+    have := rnd_le_of_le hx (by simpa using rep_int (n := 10000000) (by norm_num))
+    simpa using this
+  have hr0 : 0 ≤ rnd (q * 1000000) := rnd_nonneg hx0
+  have hov : |rnd (q * 1000000)| < 2 ^ (128:ℤ) := by
+    rw [abs_of_nonneg hr0]; exact lt_of_le_of_lt hr (by norm_num)
+  rw [round_def, qabs_eq, pow2_eq, if_neg (not_le.mpr hov)]
+  split
+  · rename_i hz
+    have hz' : rnd (q * 1000000) = 0 := by simpa using hz
+    rw [hz']
+    have := toU32_floor 0 (if (q * 1000000 == 0) = true then ((F32.fin q nz).sign != (F32.fin (1000000:ℚ) false).sign) else decide (q * 1000000 < 0)) (le_refl _) (by norm_num)
+    simpa using this
+  · exact toU32_floor _ _ hr0 (lt_of_le_of_lt hr (by norm_num))
+
+/-- within 1.5 µV of the real-valued input -/
+theorem microvolts_close (q : ℚ) (nz : Bool) (h0 : 0 ≤ q) (h10 : q ≤ 10) :
+    q * 1000000 - 3 / 2 < (toMicrovolts (.fin q nz) : ℕ) ∧ ((toMicrovolts (.fin q nz) : ℕ) : ℚ) ≤ q * 1000000 + 1 / 2 := by
+  have hv := microvolts_val q nz h0 h10
+  have hq : ((toMicrovolts (.fin q nz) : ℕ) : ℚ) = (⌊rnd (q * 1000000)⌋ : ℚ) := by exact_mod_cast hv
+  rw [hq]
+  have herr : |rnd (q * 1000000) - q * 1000000| ≤ 1 / 2 := by
+    have := rnd_err (x := q * 1000000) (k := 24) (by norm_num)
+      (by rw [abs_of_nonneg (by positivity)]; exact lt_of_le_of_lt (by linarith : q * 1000000 ≤ 10000000) (by norm_num))
+    norm_num at this; exact this
+  have e := abs_le.mp herr
+  have g1 := Int.floor_le (rnd (q * 1000000))
+  have g2 := Int.lt_floor_add_one (rnd (q * 1000000))
+  constructor <;> linarith
+
+/-- monotone in the input voltage -/
+theorem microvolts_mono (q q' : ℚ) (nz nz' : Bool) (h0 : 0 ≤ q) (hqq : q ≤ q') (h10 : q' ≤ 10) :
+    toMicrovolts (.fin q nz) ≤ toMicrovolts (.fin q' nz') := by
+  have a := microvolts_val q nz h0 (by linarith)
+  have b := microvolts_val q' nz' (by linarith) h10
+  have : ⌊rnd (q * 1000000)⌋ ≤ ⌊rnd (q' * 1000000)⌋ :=
+    Int.floor_le_floor (rnd_mono (by nlinarith))
+  omega
+
+/-- **C08, fresh quantizer**: for every scale with an allowed note, a history-free conversion of a finite input in
+[0, 10] V reports a note that never decreases when the input rises -/
+theorem convertFresh_monotone (allowed : Nat) (ha : ∃ n, n < 12 ∧ bit allowed n = true)
+    (q q' : ℚ) (nz nz' : Bool) (h0 : 0 ≤ q) (hqq : q ≤ q') (h10 : q' ≤ 10) :
+    (convertFresh allowed (.fin q nz)).note ≤ (convertFresh allowed (.fin q' nz')).note := by
+  have clampId : ∀ (x : ℚ) (s : Bool), 0 ≤ x → x ≤ 10 → ∃ s', fmin (fmax (.fin x s) zero) vMax = .fin x s' := by
+    intro x s hx0 hx10
+    rw [C07.vMax_eq]
+    by_cases hz : x = 0
+    · subst hz; cases s <;> exact ⟨false, by simp [fmax, fmin, zero, mixedZeros, lt]⟩
+    · have hq : (x == 0) = false := by simpa using hz
+      have h1 : ¬ x < 0 := not_lt.mpr hx0
+      have h2 : ¬ (10:ℚ) < x := not_lt.mpr hx10
+      exact ⟨s, by simp [fmax, fmin, zero, mixedZeros, lt, hq, h1, h2]⟩
+  obtain ⟨s1, e1⟩ := clampId q nz h0 (by linarith)
+  obtain ⟨s2, e2⟩ := clampId q' nz' (by linarith) h10
+  simp only [convertFresh, e1, e2]
+  apply findNearestUv_monotone allowed ha _ _ (microvolts_mono q q' s1 s2 h0 hqq h10)
+  have := C07.microvolts_le (.fin q' nz')
+  rw [e2] at this; exact this
+
+/-- non-vacuity / the case repaired by ordering the octaves: only D♯ allowed, 1.8 V is nearer to 2.25 V (note 27)
+than to 1.25 V (note 15) -/
+example : findNearestUv 0b000000001000 1800000 = 27 := by decide +kernel
+example : Pick (globalCands 0b000000001000) 1800000 (3 * Gen.halfStepUv + 2 * Gen.oneOctaveUv) :=
+  local_to_global _ _ _ ⟨3, by decide, by decide⟩ (by decide)
+    (by have := search_is_pick 0b000000001000 1800000 ⟨3, by decide, by decide⟩ (by decide)
+        have e : ((allCands 0b000000001000 1800000).foldl (scanStep 1800000) {}).result =
+          3 * Gen.halfStepUv + 2 * Gen.oneOctaveUv := by decide +kernel
+        rwa [e] at this)
+
 end C08
